@@ -575,7 +575,7 @@ func (cs *ContractSet) parseFile(file, relDir string) error {
 				} else if strings.HasSuffix(key, "*") {
 					cs.ExternGlb = append(cs.ExternGlb, cur)
 				} else {
-					cs.Externs[key] = cur
+					cs.Externs[unit.Name+"/"+key] = cur
 				}
 			case "lemma":
 				cur.FullKey = "lemma:" + pkgName + "." + key
